@@ -22,7 +22,8 @@ RULE = ('one case = (position in {first, after PASS, after FAIL, in subtest, in 
         '{None,1,2,4}, one of {none, force_repeat, repeat_on_measurement_fail, '
         'repeat_on_timeout, stop_on_measurement_fail, stop_on_first_failure}, run_if in '
         '{none,true,false,raises, stateful per evaluation}, measurement in {none,pass,fail,marginal,unset +- '
-        'allow_unset}, diagnosers in {none,pass,failure,raises,raises+pass,two}); a reduced '
+        'allow_unset}, diagnosers in {none,pass,failure,raises,raises+pass,two, always_fail handing '
+        'back one diagnosis / a list / a generator}); a reduced '
         'core product is enumerated completely and the full product is sampled; distinct = '
         'distinct case; non-trivial = at least one invocation or record of the phase under '
         'test was judged')
@@ -48,7 +49,8 @@ OPTS = [None, 'force_repeat', 'repeat_on_measurement_fail', 'repeat_on_timeout',
 RUN_IFS = [None, True, False, 'raise', [True, False], [True, False, True],
            [False, True], [True, 'raise']]
 MEAS = [None, 'pass', 'fail', 'marginal', 'unset', 'unset_allowed']
-DIAGS = [None, 'pass', 'failure', 'raises', 'raises+pass', 'two']
+DIAGS = [None, 'pass', 'failure', 'raises', 'raises+pass', 'two', 'af_single',
+         'af_list', 'af_gen']
 
 
 def setup():
@@ -76,7 +78,11 @@ def make(pos, seq, limit, opt, run_if, meas, diag):
   if diag:
     beh['ds'] = {'pass': [[['D1', 0]]], 'failure': [[['D2', 1]]],
                  'raises': ['RAISE'], 'raises+pass': ['RAISE', [['D1', 0]]],
-                 'two': [[['D1', 0]], [['D2', 1], ['D3', 0]]]}[diag]
+                 'two': [[['D1', 0]], [['D2', 1], ['D3', 0]]],
+                 # always_fail=True: every diagnosis handed back is a failure
+                 'af_single': [{'af': 1, 'shape': 'single', 'ds': [['D2', 0]]}],
+                 'af_list': [{'af': 1, 'shape': 'list', 'ds': [['D2', 0], ['D3', 0]]}],
+                 'af_gen': [{'af': 1, 'shape': 'gen', 'ds': [['D2', 0]]}]}[diag]
   put = ['P', 'put', beh]
   ok = lambda n: ['P', n, {}]
   if pos == 'first':
